@@ -359,6 +359,28 @@ def run_real(case):
                 want = np.trace(V @ rho)
                 if abs(ex - want) > 1e-9 * (1 + abs(want)):
                     extra.append(("expect-dm-" + fmt, f"QobjEvo.expect(t={t}, dm)={ex} but tr(Q(t) rho)={want}"))
+            # superoperators built from the object, applied to and averaged over an operator that is neither symmetric nor
+            # Hermitian, held in either memory order or sparsely: tr(S(t)[X]) and S(t) vec(X) with column stacking
+            if V.shape[0] == V.shape[1] and V.shape[0] <= 4 and not obj.issuper:
+                d_ = V.shape[0]
+                Xm = (np.arange(d_ * d_).reshape(d_, d_) % 5 - 2) + 1j * ((np.arange(d_ * d_).reshape(d_, d_) * 3) % 7 - 3)
+                supers = {"spre": (qutip.spre(obj), lambda X: V @ X), "spost": (qutip.spost(obj), lambda X: X @ V),
+                          "sprepost": (qutip.sprepost(obj, obj.dag()), lambda X: V @ X @ V.conj().T)}
+                states = {"dense-C": qutip.Qobj(np.ascontiguousarray(Xm)), "dense-F": qutip.Qobj(np.asfortranarray(Xm)).to("dense"), "csr": qutip.Qobj(Xm).to("csr"),
+                          "dense-C-from-csr": qutip.Qobj(Xm).to("csr").to("dense")}
+                for sname, (Sop, ref_) in supers.items():
+                    for stname, Xq in states.items():
+                        try:
+                            ex = Sop.expect(float(t), Xq)
+                            mm = Sop.matmul(float(t), qutip.operator_to_vector(Xq)).full().ravel()
+                        except Exception as e:      # noqa
+                            extra.append((f"super-expect-raises-{sname}", f"{sname}(Q).expect / matmul with an operator state ({stname}) raises {type(e).__name__}: {e}"[:200]))
+                            continue
+                        want = np.trace(ref_(Xm))
+                        if abs(ex - want) > 1e-9 * (1 + abs(want)):
+                            extra.append((f"super-expect-{sname}-{stname}", f"{sname}(Q).expect(t={t}, X) = {ex} for an operator X held as {stname}, but tr of the map applied to X is {want}"))
+                        if np.abs(mm - ref_(Xm).reshape(-1, order="F")).max() > 1e-9 * (1 + np.abs(V).max() ** 2 * 10):
+                            extra.append((f"super-matmul-{sname}-{stname}", f"{sname}(Q).matmul(t={t}, vec(X)) for X held as {stname} is not the column-stacked map applied to X"))
     return vals, extra, obj
 
 
